@@ -7,7 +7,8 @@ use crate::scenario::*;
 fn plain(r: &mut Rng, uniq: &mut u64) -> Vec<B> {
     *uniq += 1;
     let acct = |r: &mut Rng| b(*r.pick(&["acct:a", "acct:b", "acct:c"]));
-    match r.below(14) {
+    match r.below(15) {
+        14 => vec![b("PUBLISH"), b("nobody-listens"), b(&format!("p{}", uniq))],
         0 => vec![b("SET"), b(*r.pick(&["s1", "s2"])), b(&format!("v{}", uniq))],
         1 => vec![b("GET"), b(*r.pick(&["s1", "s2", "acct:a"]))],
         2 => vec![b("INCR"), acct(r)],
